@@ -4,6 +4,7 @@ import (
 	"bytes"
 	"fmt"
 	"math/rand"
+	"sync/atomic"
 	"time"
 
 	. "vcheck/lib"
@@ -209,12 +210,49 @@ func runC11(c *Check, rng *rand.Rand) {
 		gates[0].Open() // the error first
 		ok := cl.WaitReplies(1, 3*time.Second)
 		env.Barrier()
+		// requests that arrive between the error and the sibling's late reply (decoded into
+		// whatever objects the answered request has just released) and are themselves still
+		// waiting, on other nodes, when that late reply comes in
+		nmid := 0
+		var midKeys []string
+		var midGates []*Gate
+		if i%2 == 1 {
+			sib := env.T.Owner(r.slots[1])
+			for len(midKeys) < 3 {
+				sl := rng.Intn(16384)
+				if o := env.T.Owner(sl); o == nil || o == sib {
+					continue
+				}
+				k := Key(sl, newToken("mid"))
+				g := NewGate()
+				script.Plan(k).Gate = g
+				midKeys = append(midKeys, k)
+				midGates = append(midGates, g)
+				cl.Send(Req("GET", k))
+			}
+			nmid = len(midKeys)
+			env.Barrier()
+		}
 		gates[1].Open() // then the sibling: redirect or late normal reply
 		env.Barrier()
+		for _, g := range midGates {
+			g.Open()
+		}
+		midOK := true
+		if nmid > 0 {
+			midOK = cl.WaitReplies(1+nmid, 3*time.Second)
+			snap := cl.Snapshot()
+			for j, k := range midKeys {
+				if 1+j >= len(snap.Replies) || !bytes.Equal(snap.Replies[1+j].Val.Raw, BulkReply([]byte("v:"+k))) {
+					midOK = false
+				}
+			}
+			script.Forget(midKeys...)
+		}
 		// follow-up traffic on the same connection
 		fk := Key(rng.Intn(16384), newToken("fu"))
 		cl.Send(Req("GET", fk))
-		ok2 := cl.WaitReplies(2, 3*time.Second)
+		ok2 := cl.WaitReplies(2+nmid, 3*time.Second) && midOK
 		wit := map[string]interface{}{"request": Q(r.raw), "first_fragment_reply": e, "second_fragment_reply": Q(r.override[r.slots[1]])}
 		c.Eval(1)
 		c.Distinct(fmt.Sprintf("error-then-sibling/%s/%d", kind, i%4))
@@ -225,13 +263,87 @@ func runC11(c *Check, rng *rand.Rand) {
 			restart()
 		case !ok || cl.Snapshot().Replies[0].Val.Kind != '-':
 			c.Violate(Violation{Class: "error-converted-to-success", Shape: kind + "/late-sibling-after-error", Detail: "request with an erroring fragment not answered with an error", Witness: wit})
-		case !ok2 || !bytes.Equal(cl.Snapshot().Replies[1].Val.Raw, BulkReply([]byte("v:"+fk))):
+		case !ok2 || !bytes.Equal(cl.Snapshot().Replies[1+nmid].Val.Raw, BulkReply([]byte("v:"+fk))):
 			wit["received"] = valStrings(cl.Snapshot().Replies)
-			c.Violate(Violation{Class: "following-request-disturbed", Shape: kind + "/late-sibling-after-error", Detail: "the request after it was not answered normally", Witness: wit})
+			wit["requests_sent_between_error_and_late_sibling_reply"] = midKeys
+			c.Violate(Violation{Class: "following-request-disturbed", Shape: kind + "/late-sibling-after-error", Detail: "the requests after it were not answered normally (each GET k must return v:k)", Witness: wit})
 		default:
 			c.Count("split_errors_surfaced", 1)
 		}
 		cl.Close()
+		r.forget(script)
+	}
+	// the same, within ONE event-loop round: both fragments live on the same node, which
+	// answers the first to arrive with a redirect and the second with an error in a single
+	// write. The redirected fragment is still waiting to be written to its new node when
+	// the error completes the request. The new node must stay usable.
+	for i := 0; i < c.Pick(16, 200) && env.P.Alive(); i++ {
+		kind := []string{"mget", "del", "mset"}[i%3]
+		var s1, s2 int
+		var x *TNode
+		for {
+			s1, s2 = rng.Intn(16384), rng.Intn(16384)
+			if x = env.T.Owner(s1); x != nil && s1 != s2 && env.T.Owner(s2) == x {
+				break
+			}
+		}
+		var y *TNode
+		for _, tn := range env.T.Nodes {
+			if tn.Master && tn != x {
+				y = tn
+			}
+		}
+		r := c07genSlots(rng, kind, []int{s1, s2}, 2+rng.Intn(2), false)
+		e := c11errors[(i*5)%len(c11errors)]
+		kw := []string{"MOVED", "ASK"}[i%2]
+		var arrived int32
+		for _, sl := range r.slots {
+			sl := sl
+			script.Plan(string(r.keys[r.groups[sl][0]])).Act = func(b *BReq) Action {
+				if b.Node != x.Node {
+					return Action{Reply: ValueReply(b)} // the re-sent fragment at its new node
+				}
+				if atomic.AddInt32(&arrived, 1) == 1 {
+					return Action{Reply: ErrReply(fmt.Sprintf("%s %d %s", kw, sl, y.Addr)), MergeNext: true}
+				}
+				return Action{Reply: ErrReply(e)}
+			}
+		}
+		cl, err := env.Dial()
+		must(err, "dial")
+		cl.Send(r.raw)
+		ok := cl.WaitReplies(1, 3*time.Second)
+		env.Barrier()
+		// follow-up traffic for the node the fragment was redirected to, on this and on
+		// another client connection
+		ySlot := y.Slots[0][0] + rng.Intn(y.Slots[0][1]-y.Slots[0][0]+1)
+		fk := Key(ySlot, newToken("fu"))
+		fk2 := Key(ySlot, newToken("fu"))
+		cl.Send(Req("GET", fk))
+		ok2 := cl.WaitReplies(2, 3*time.Second)
+		cl2, err := env.Dial()
+		must(err, "dial")
+		cl2.Send(Req("GET", fk2))
+		ok3 := cl2.WaitReplies(1, 3*time.Second)
+		wit := map[string]interface{}{"request": Q(r.raw), "node_answers_in_one_write": []string{fmt.Sprintf("-%s <slot> %s", kw, y.Addr), "-" + e}}
+		c.Eval(1)
+		c.Distinct(fmt.Sprintf("redirect+error-in-one-write/%s/%s", kind, kw))
+		switch {
+		case !env.P.Alive():
+			wit["stderr"] = env.P.OutputTail(1500)
+			c.Violate(Violation{Class: "proxy-died", Shape: kind + "/redirect-and-error-in-one-round", Detail: "proxy crashed: " + env.P.PanicLine(), Witness: wit})
+			restart()
+		case !ok || cl.Snapshot().Replies[0].Val.Kind != '-':
+			c.Violate(Violation{Class: "error-converted-to-success", Shape: kind + "/redirect-and-error-in-one-round", Detail: "request with an erroring fragment not answered with an error", Witness: wit})
+		case !ok2 || !bytes.Equal(cl.Snapshot().Replies[1].Val.Raw, BulkReply([]byte("v:"+fk))) || !ok3 || !bytes.Equal(cl2.Snapshot().Replies[0].Val.Raw, BulkReply([]byte("v:"+fk2))):
+			wit["received"] = valStrings(cl.Snapshot().Replies)
+			wit["received_second_client"] = valStrings(cl2.Snapshot().Replies)
+			c.Violate(Violation{Class: "following-request-disturbed", Shape: kind + "/redirect-and-error-in-one-round", Detail: "requests for the node the fragment was redirected to are no longer answered normally", Witness: wit})
+		default:
+			c.Count("split_errors_surfaced", 1)
+		}
+		cl.Close()
+		cl2.Close()
 		r.forget(script)
 	}
 	if env.P.Alive() {
